@@ -899,6 +899,11 @@ pub fn run_all(work: &Path) -> SysReport {
     for k in 0..n_random {
         jobs.push((scs.len() + k, k % 2 == 0));
     }
+    // random multi-file projects: indices >= scs.len() + n_random
+    let n_multi: usize = if crate::deep() { 1500 } else { 150 };
+    for k in 0..n_multi {
+        jobs.push((scs.len() + n_random + k, k % 2 == 0));
+    }
     let next = std::sync::atomic::AtomicUsize::new(0);
     let total = std::sync::Mutex::new(SysReport { expected_err: vec![], checked: 0, failures: vec![], base_pending: vec![] });
     std::thread::scope(|sp| {
@@ -909,7 +914,9 @@ pub fn run_all(work: &Path) -> SysReport {
                     break;
                 }
                 let (i, tn) = jobs[k];
-                let r = if i >= scs.len() {
+                let r = if i >= scs.len() + n_random {
+                    run_random_project(&work.join(format!("job{k}")), seed, (i - scs.len() - n_random) as u64, tn)
+                } else if i >= scs.len() {
                     run_random(&work.join(format!("job{k}")), seed, (i - scs.len()) as u64, tn)
                 } else {
                     run_one(&work.join(format!("job{k}")), &scs[i], tn)
@@ -987,6 +994,153 @@ pub fn random_source(seed: u64, k: u64) -> Vec<u8> {
         }
     }
     out.into_bytes()
+}
+
+fn leak(x: String) -> &'static str {
+    Box::leak(x.into_boxed_str())
+}
+
+/// a random multi-file project: 1-4 sources in two directories with the three source-name spellings, includes / afters
+/// of each other's outputs (forward references only, so it is acyclic, except in 1 of 16 projects), static includes,
+/// commands that print their directory and TXTPP_FILE, temp files, tags, write
+pub fn random_project(seed: u64, k: u64) -> Scenario {
+    let mut st = seed.wrapping_mul(0xA0761D6478BD642F).wrapping_add(k.wrapping_mul(0xE7037ED1A0B428DB)) | 1;
+    for _ in 0..4 {
+        xorshift(&mut st);
+    }
+    // (source path, output path)
+    let pool: [(&str, &str); 5] = [("a.txt.txtpp", "a.txt"), ("b.txtpp.txt", "b.txt"), ("c.txtpp", "c"), ("sub/d.md.txtpp", "sub/d.md"), ("sub/e.txtpp.md", "sub/e.md")];
+    let n = 1 + (xorshift(&mut st) % 4) as usize;
+    let start = (xorshift(&mut st) % 5) as usize;
+    let chosen: Vec<(&str, &str)> = (0..n).map(|i| pool[(start + i) % 5]).collect();
+    let any_order = xorshift(&mut st) % 16 == 0;
+    let rel = |from_src: &str, to: &str| -> String {
+        // path of `to` (relative to the root) as seen from the directory of `from_src`
+        if from_src.starts_with("sub/") {
+            if let Some(r) = to.strip_prefix("sub/") { r.to_string() } else { format!("../{to}") }
+        } else {
+            to.to_string()
+        }
+    };
+    let mut files: Vec<(&'static str, Vec<u8>)> = vec![
+        ("inc.txt", s("i1\r\ni2\n")),
+        ("sub/keep.txt", s("k\n")),
+        ("gen/keep.txt", s("k\n")),
+        ("here.txt", s("ROOT\n")),
+        ("sub/here.txt", s("SUB\n")),
+    ];
+    for (i, (src, _)) in chosen.iter().enumerate() {
+        let crlf = xorshift(&mut st) % 4 == 0;
+        let nl = if crlf { "\r\n" } else { "\n" };
+        let nlines = 1 + xorshift(&mut st) % 6;
+        let mut text = String::new();
+        for li in 0..nlines {
+            let line: String = match xorshift(&mut st) % 14 {
+                0 => format!("text {i}.{li}"),
+                1 => "  indented".to_string(),
+                2 => {
+                    // include / after of another generated file
+                    let cands: Vec<usize> = (0..n).filter(|j| if any_order { true } else { *j > i }).collect();
+                    if cands.is_empty() {
+                        "plain".to_string()
+                    } else {
+                        let j = cands[(xorshift(&mut st) % cands.len() as u64) as usize];
+                        let kind = if xorshift(&mut st) % 3 == 0 { "after" } else { "include" };
+                        format!("-TXTPP#{kind} {}", rel(src, chosen[j].1))
+                    }
+                }
+                3 => format!("  -TXTPP#include {}", rel(src, "inc.txt")),
+                4 => "-TXTPP#run cat here.txt; echo $TXTPP_FILE".to_string(),
+                5 => "+TXTPP#run printf 'no-nl'".to_string(),
+                6 => format!("// TXTPP#temp t{i}.txt{nl}// c1{nl}//"),
+                7 => format!("# TXTPP#temp {}{nl}# x", rel(src, &format!("gen/g{i}.txt"))),
+                8 => format!("-TXTPP#write w{i}{nl}-w2"),
+                9 => format!("-TXTPP#tag T{i}{nl}+TXTPP#write v{i}{nl}<T{i}>"),
+                10 => "".to_string(),
+                11 => "-TXTPP# note".to_string(),
+                12 => "  # TXTPP#run echo ind; echo ind2".to_string(),
+                _ => "tail text".to_string(),
+            };
+            text.push_str(&line);
+            if li + 1 < nlines || xorshift(&mut st) % 6 != 0 {
+                text.push_str(nl);
+            }
+        }
+        files.push((leak(src.to_string()), text.into_bytes()));
+    }
+    let by_name = xorshift(&mut st) % 3 == 0;
+    Scenario {
+        name: "random_project",
+        files,
+        inputs: if by_name { vec![leak(chosen[0].1.to_string())] } else { vec!["."] },
+        recursive: !by_name,
+    }
+}
+
+/// base phase (real Build vs reference), then verify, then clean, on a random multi-file project
+fn run_random_project(work: &Path, seed: u64, k: u64, tn: bool) -> SysReport {
+    let mut rep = SysReport { expected_err: vec![], checked: 1, failures: vec![], base_pending: vec![] };
+    let sc = random_project(seed, k);
+    let refroot = work.join("ref");
+    let root = work.join("real");
+    let exp = reference(&refroot, &sc, tn);
+    if !exp.ok {
+        rep.expected_err.push("random".to_string());
+    }
+    materialize(&root, &sc);
+    let initial = snapshot(&root);
+    let phase = format!("random multi-file project #{k} of seed {seed}: Build tn={tn}, fresh tree, 1 thread, compared with the reference interpreter");
+    let r = run_real(cfg(&root, &sc, Mode::Build, 1, tn));
+    let built = snapshot(&root);
+    match &r {
+        Err(e) => rep.fail(&sc, &phase, e.clone(), &["C18", "C03"]),
+        Ok(v) => {
+            if *v != exp.ok {
+                rep.fail(&sc, &phase, format!("verdict ok={} but the semantics prescribe ok={}", v, exp.ok), if *v { &["C04"] } else { &["C01"] });
+            } else if exp.ok {
+                if let Some(d) = diff_trees(&exp.tree, &built, &|_| false) {
+                    let mut p: Vec<&'static str> = vec!["C01"];
+                    for x in diff_props(&exp.tree, &built, &initial, true) {
+                        if x != "C01" {
+                            p.push(x);
+                        }
+                    }
+                    rep.fail(&sc, &phase, d, &p);
+                } else {
+                    // 4 threads give the same tree
+                    rep.checked += 1;
+                    materialize(&root, &sc);
+                    let r4 = run_real(cfg(&root, &sc, Mode::Build, 4, tn));
+                    if r4 != Ok(true) {
+                        rep.fail(&sc, &format!("random multi-file project #{k} of seed {seed}: Build with 4 threads"), format!("{r4:?} but 1 thread succeeds"), &["C02", "C03"]);
+                    } else if let Some(d) = diff_trees(&built, &snapshot(&root), &|_| false) {
+                        rep.fail(&sc, &format!("random multi-file project #{k} of seed {seed}: Build with 4 threads compared with 1 thread"), d, &["C02"]);
+                    }
+                    // verify accepts the built tree and changes nothing
+                    rep.checked += 1;
+                    let rv = run_real(cfg(&root, &sc, Mode::Verify, 2, tn));
+                    if rv != Ok(true) {
+                        rep.fail(&sc, &format!("random multi-file project #{k} of seed {seed}: Verify right after Build"), format!("{rv:?} but the outputs are up to date"), &["C06"]);
+                    }
+                    if let Some(d) = diff_trees(&built, &snapshot(&root), &|_| false) {
+                        rep.fail(&sc, &format!("random multi-file project #{k} of seed {seed}: Verify"), format!("verify changed the tree: {d}"), &["C06", "C10"]);
+                    }
+                    // a project scanned from its root: clean restores the initial tree
+                    if sc.recursive {
+                        rep.checked += 1;
+                        let rc = run_real(cfg(&root, &sc, Mode::Clean, 2, tn));
+                        if rc != Ok(true) {
+                            rep.fail(&sc, &format!("random multi-file project #{k} of seed {seed}: Clean after Build"), format!("{rc:?}"), &["C07"]);
+                        } else if let Some(d) = diff_trees(&initial, &snapshot(&root), &|_| false) {
+                            rep.fail(&sc, &format!("random multi-file project #{k} of seed {seed}: Clean after Build"), format!("the tree is not what it was before the build: {d}"), &["C07", "C10"]);
+                        }
+                    }
+                }
+            }
+        }
+    }
+    let _ = fs::remove_dir_all(work);
+    rep
 }
 
 fn run_random(work: &Path, seed: u64, k: u64, tn: bool) -> SysReport {
